@@ -202,6 +202,12 @@ theorem sim_step {s s' : State} {e : Event} (h : step repaired s e = some s') :
     rename_i hi
     obtain ⟨hl, rfl⟩ := h
     simpa [cstep, absEvent, PC.cls, hl] using mv_abs s .unlocking hi
+  | wRecheck i =>
+    simp only [step] at h
+    split at h <;> try (simp at h)
+    rename_i hi
+    obtain ⟨hl, rfl⟩ := h
+    simpa [cstep, absEvent, PC.cls, hl] using mv_abs s .hasL hi
   | aPush t =>
     simp only [step] at h
     simp at h; subst h
